@@ -28,9 +28,11 @@ Lits == <<[k |-> "lit", kind |-> "int", dec |-> "0", src |-> "0", cls |-> "fin",
          [k |-> "lit", kind |-> "float", dec |-> "0", src |-> "0.1", cls |-> "fin", neg |-> FALSE, m |-> "7205759403792794", e |-> -56],
          [k |-> "lit", kind |-> "float", dec |-> "0", src |-> "3.0", cls |-> "fin", neg |-> FALSE, m |-> "6755399441055744", e |-> -51],
          [k |-> "lit", kind |-> "float", dec |-> "0", src |-> "1000000000000000.0", cls |-> "fin", neg |-> FALSE, m |-> "8000000000000000", e |-> -3],
-         [k |-> "lit", kind |-> "float", dec |-> "0", src |-> "4294967296.5", cls |-> "fin", neg |-> FALSE, m |-> "4503599627894784", e |-> -20]>>
+         [k |-> "lit", kind |-> "float", dec |-> "0", src |-> "4294967296.5", cls |-> "fin", neg |-> FALSE, m |-> "4503599627894784", e |-> -20],
+         \* an unsuffixed literal beyond the int range is a bigint (its negation is *not* the int minimum)
+         [k |-> "lit", kind |-> "bigint", dec |-> "2147483648", src |-> "2147483648", cls |-> "fin", neg |-> FALSE, m |-> "0", e |-> 0]>>
 IntLits == 1..9
-BigLits == 10..14
+BigLits == (10..14) \cup {28}
 ByteLits == 15..19
 FloatLits == 20..27
 =============================================================================
